@@ -1,21 +1,18 @@
 (* C20 — PCHIP interpolation is exact at knots, C1 and shape-preserving.
    Only final statements; every proof is `exact <lemma>` (or a conversion of one).
    [pchip_eval]/[pchip_evalD]/[pchip_init] are the model of /repo/emu_base/math/pchip_torch.py
-   (Model/Pchip.v, bit-exact with torch at the PrimFloat instance) taken at the real-number instance.
-   incr xs = knots strictly increasing; in_box d s = Fritsch-Carlson box (d has the sign of the
-   secant s and |d| <= 3|s|, d = 0 when s = 0); secant_i = (y[i+1]-y[i])/(x[i+1]-x[i]);
-   piece_i = the Hermite cubic of interval i; ends_regular = neither end interval is flat next to a
-   non-flat interval.
-   STATUS: the model follows the source as it is today, whose end-slope limiter tests d*s < 0
-   (finding F-11).  Hence shape preservation / equality with the standard PCHIP are proved only
-   under [ends_regular] (`_partial`) and refuted without it (`_refuted`).  The unconditional
-   statements, proved for the limiter of the proposed fix, are in proposed_fixes/C20_after_F11.v. *)
+   (Model/Pchip.v, bit-exact with torch at the PrimFloat instance, checked on every run) at the real-number
+   instance.  incr xs = knots strictly increasing; in_box d s = Fritsch-Carlson box (d has the sign of the
+   secant s and |d| <= 3|s|, d = 0 when s = 0); secant_i = (y[i+1]-y[i])/(x[i+1]-x[i]); piece_i = Hermite
+   cubic of interval i.  History: before /repo b976cb3 the end-slope limiter tested d*s < 0 and the
+   interpolant overshot next to a flat end interval (finding F-11); that variant is still refuted in
+   Proofs/PchipProofs.v (src_shape_refuted) and its witnesses are regression cases in corpus/C20.json. *)
 From Coq Require Import Reals List.
 From EV Require Import Base.Arith Model.Pchip Proofs.PchipProofs.
 Import ListNotations.
 Open Scope R_scope.
 
-Notation Lsrc := (limit_endpoint_src R_arith).
+Notation Lim := (limit_endpoint R_arith).
 
 (* The constructor accepts exactly: equal lengths, at least 2 knots, strictly increasing knots;
    a call then returns the model interpolant at every query point. *)
@@ -32,7 +29,7 @@ Proof. exact call_spec. Qed.
 Theorem C20_interpolates_knots : forall (xs ys : list R),
   incr xs -> length ys = length xs -> (2 <= length xs)%nat -> forall i, (i < length xs)%nat ->
   pchip_eval R_arith xs ys (nth i xs 0) = nth i ys 0.
-Proof. exact (g_interpolates Lsrc). Qed.
+Proof. exact (g_interpolates Lim). Qed.
 
 (* Piecewise representation: on [x_i, x_{i+1}) (first piece extended to the left, last piece to
    the right: extrapolation) the interpolant and its derivative function are cubic i and its
@@ -40,9 +37,9 @@ Proof. exact (g_interpolates Lsrc). Qed.
 Theorem C20_piecewise_cubic : forall (xs ys : list R), incr xs -> length ys = length xs ->
   (2 <= length xs)%nat -> forall q i, (S i < length xs)%nat ->
   (i = 0%nat \/ nth i xs 0 <= q) -> (S (S i) = length xs \/ q < nth (S i) xs 0) ->
-  pchip_eval R_arith xs ys q = horner R_arith (piece_i Lsrc xs ys i) (q - nth i xs 0) /\
-  pchip_evalD R_arith xs ys q = hornerD R_arith (piece_i Lsrc xs ys i) (q - nth i xs 0).
-Proof. exact (g_select Lsrc). Qed.
+  pchip_eval R_arith xs ys q = horner R_arith (piece_i Lim xs ys i) (q - nth i xs 0) /\
+  pchip_evalD R_arith xs ys q = hornerD R_arith (piece_i Lim xs ys i) (q - nth i xs 0).
+Proof. exact (g_select Lim). Qed.
 
 (* ... each cubic is differentiable with that derivative ... *)
 Theorem C20_cubic_derivative : forall (p : R * R * R * R) t,
@@ -54,11 +51,11 @@ Proof. exact horner_derivable. Qed.
 Theorem C20_C1_at_interior_knots : forall (xs ys : list R), incr xs -> length ys = length xs ->
   (2 <= length xs)%nat -> forall k, (1 <= k)%nat -> (S k < length xs)%nat ->
   let h := nth k xs 0 - nth (k - 1) xs 0 in
-  horner R_arith (piece_i Lsrc xs ys (k - 1)) h = nth k ys 0 /\
-  horner R_arith (piece_i Lsrc xs ys k) 0 = nth k ys 0 /\
-  hornerD R_arith (piece_i Lsrc xs ys (k - 1)) h = nth k (slopesL Lsrc xs ys) 0 /\
-  hornerD R_arith (piece_i Lsrc xs ys k) 0 = nth k (slopesL Lsrc xs ys) 0.
-Proof. exact (g_C1 Lsrc). Qed.
+  horner R_arith (piece_i Lim xs ys (k - 1)) h = nth k ys 0 /\
+  horner R_arith (piece_i Lim xs ys k) 0 = nth k ys 0 /\
+  hornerD R_arith (piece_i Lim xs ys (k - 1)) h = nth k (slopesL Lim xs ys) 0 /\
+  hornerD R_arith (piece_i Lim xs ys k) 0 = nth k (slopesL Lim xs ys) 0.
+Proof. exact (g_C1 Lim). Qed.
 
 (* Hermite piece: if both end slopes are in the Fritsch-Carlson box of the secant, the derivative
    has the sign of the secant on the whole piece, the piece is monotone and stays between its end
@@ -76,71 +73,45 @@ Proof.
   - intros t. exact (piece_between y0 y1 h d0 d1 t Hh B0 B1).
 Qed.
 
-(* Every interior knot slope (weighted harmonic mean or 0) lies in the box of both adjacent secants. *)
-Theorem C20_interior_slopes_in_box : forall (xs ys : list R) k,
-  incr xs -> length ys = length xs -> (1 <= k)%nat -> (S k < length xs)%nat ->
-  in_box (nth k (slopesL Lsrc xs ys) 0) (secant_i xs ys (k - 1)) /\
-  in_box (nth k (slopesL Lsrc xs ys) 0) (secant_i xs ys k).
-Proof. exact src_interior_slopes_boxed. Qed.
-
-(* Shape preservation of the model on every interval, when no end interval is flat next to a
-   non-flat one: values between the two data values, monotone in the direction of the data. *)
-Theorem C20_shape_preserving_partial : forall (xs ys : list R),
+(* Every knot slope (interior: weighted harmonic mean or 0; ends: limited three-point estimate) lies in
+   the Fritsch-Carlson box of each adjacent secant. *)
+Theorem C20_slopes_in_box : forall (xs ys : list R),
   incr xs -> length ys = length xs -> (2 <= length xs)%nat ->
-  ends_regular (secants R_arith ys (diffs R_arith xs)) ->
+  forall i, (S i < length xs)%nat ->
+  in_box (nth i (slopesL Lim xs ys) 0) (secant_i xs ys i) /\
+  in_box (nth (S i) (slopesL Lim xs ys) 0) (secant_i xs ys i).
+Proof. exact fixed_slopes_boxed. Qed.
+
+(* Shape preservation on every interval: values between the two data values, monotone in the direction
+   of the data (constant on flat intervals). *)
+Theorem C20_shape_preserving : forall (xs ys : list R),
+  incr xs -> length ys = length xs -> (2 <= length xs)%nat ->
   forall i, (S i < length xs)%nat ->
   (forall q, nth i xs 0 <= q <= nth (S i) xs 0 ->
      Rmin (nth i ys 0) (nth (S i) ys 0) <= pchip_eval R_arith xs ys q <= Rmax (nth i ys 0) (nth (S i) ys 0)) /\
   (forall q1 q2, nth i xs 0 <= q1 -> q1 <= q2 -> q2 <= nth (S i) xs 0 ->
      0 <= secant_i xs ys i * (pchip_eval R_arith xs ys q2 - pchip_eval R_arith xs ys q1)).
-Proof. exact src_shape_partial. Qed.
+Proof. exact fixed_shape. Qed.
 
-(* ... and unconditionally on every interval that is not the first or the last one. *)
-Theorem C20_shape_preserving_inner_intervals : forall (xs ys : list R),
+(* The model IS the standard PCHIP interpolant (independently written reference: Fritsch-Carlson slopes,
+   SciPy sign-based three-point end rule, Hermite-basis evaluation) at every query point, inside and
+   outside the knot range. *)
+Theorem C20_is_reference : forall (xs ys : list R) q,
   incr xs -> length ys = length xs -> (2 <= length xs)%nat ->
-  forall i, (1 <= i)%nat -> (S (S i) < length xs)%nat ->
-  (forall q, nth i xs 0 <= q <= nth (S i) xs 0 ->
-     Rmin (nth i ys 0) (nth (S i) ys 0) <= pchip_eval R_arith xs ys q <= Rmax (nth i ys 0) (nth (S i) ys 0)) /\
-  (forall q1 q2, nth i xs 0 <= q1 -> q1 <= q2 -> q2 <= nth (S i) xs 0 ->
-     0 <= secant_i xs ys i * (pchip_eval R_arith xs ys q2 - pchip_eval R_arith xs ys q1)).
-Proof. exact src_shape_inner. Qed.
-
-(* Under the same side condition the model IS the standard PCHIP interpolant (independently written
-   reference: Fritsch-Carlson slopes, SciPy sign-based three-point end rule, Hermite-basis evaluation),
-   at every query point, inside and outside the knot range. *)
-Theorem C20_is_reference_partial : forall (xs ys : list R) q,
-  incr xs -> length ys = length xs -> (2 <= length xs)%nat ->
-  ends_regular (secants R_arith ys (diffs R_arith xs)) ->
   pchip_eval R_arith xs ys q = ref_eval R_arith xs ys q.
-Proof. exact src_is_reference_partial. Qed.
+Proof. exact fixed_is_reference. Qed.
 
-(* The reference itself is exact at the knots, has all its slopes in the box and is shape preserving
-   on every interval, with no side condition (so the reference is the right specification). *)
-Theorem C20_reference_is_shape_preserving : forall (xs ys : list R),
+(* Corollary used by C22: non-negative data give a non-negative interpolant on the whole knot range. *)
+Theorem C20_nonnegative_data_nonnegative_interpolant : forall (xs ys : list R) q,
   incr xs -> length ys = length xs -> (2 <= length xs)%nat ->
-  (forall i, (i < length xs)%nat -> ref_eval R_arith xs ys (nth i xs 0) = nth i ys 0) /\
-  forall i, (S i < length xs)%nat ->
-  (forall q, nth i xs 0 <= q <= nth (S i) xs 0 ->
-     Rmin (nth i ys 0) (nth (S i) ys 0) <= ref_eval R_arith xs ys q <= Rmax (nth i ys 0) (nth (S i) ys 0)) /\
-  (forall q1 q2, nth i xs 0 <= q1 -> q1 <= q2 -> q2 <= nth (S i) xs 0 ->
-     0 <= secant_i xs ys i * (ref_eval R_arith xs ys q2 - ref_eval R_arith xs ys q1)).
-Proof. exact ref_shape. Qed.
+  Forall (fun v => 0 <= v) ys -> nth 0 xs 0 <= q <= nth (length xs - 1) xs 0 ->
+  0 <= pchip_eval R_arith xs ys q.
+Proof. exact fixed_nonneg_inside. Qed.
 
-(* The premises above are satisfiable (and the witness below satisfies all but ends_regular). *)
-Example C20_premises_satisfiable :
-  incr [0; 1; 3] /\ ends_regular (secants R_arith [1; 2; 4] (diffs R_arith [0; 1; 3])).
-Proof. exact premises_example. Qed.
+(* The premises are satisfiable, and the former counterexample (knots 0,1,2,3, values 1,1,3,4) now
+   evaluates to 1 at 1/4. *)
+Example C20_premises_satisfiable : incr wx /\ length wy = length wx /\ (2 <= length wx)%nat.
+Proof. exact witness_valid. Qed.
 
-(* REFUTED (finding F-11): with a flat first interval next to a rising one the model undershoots the
-   data: knots 0,1,2,3, values 1,1,3,4: P(1/4) = 55/64 < 1 = min(y0,y1), whereas the standard PCHIP
-   interpolant is 1 there.  So the model is neither shape preserving nor the standard interpolant. *)
-Theorem C20_shape_preserving_refuted : exists (xs ys : list R) q,
-  incr xs /\ length ys = length xs /\ (2 <= length xs)%nat /\
-  nth 0 xs 0 <= q <= nth 1 xs 0 /\
-  pchip_eval R_arith xs ys q < Rmin (nth 0 ys 0) (nth 1 ys 0).
-Proof. exact src_shape_refuted. Qed.
-
-Theorem C20_is_reference_refuted : exists (xs ys : list R) q,
-  incr xs /\ length ys = length xs /\ (2 <= length xs)%nat /\
-  pchip_eval R_arith xs ys q <> ref_eval R_arith xs ys q.
-Proof. exact src_is_reference_refuted. Qed.
+Theorem C20_former_witness_fixed : pchip_eval R_arith wx wy (1 / 4) = 1.
+Proof. exact witness_fixed_value. Qed.
